@@ -167,6 +167,7 @@ type Exec struct {
 	obuf      []*Thread
 	objseq    int
 	nthreads  int
+	timers    []timerEntry
 }
 
 var ex *Exec
@@ -678,12 +679,61 @@ func (e *Exec) advance() bool {
 		}
 		synctest.Wait()
 		e.advancing = false
+		e.fireTimers()
 		if e.cfg.Verbose {
 			e.res.Trace = append(e.res.Trace, fmt.Sprintf("-- clock advanced to +%v", time.Since(e.start)))
 		}
 		return true
 	}
 	return false
+}
+
+type timerEntry struct {
+	at time.Time
+	ch chan time.Time
+}
+
+// After stands in for time.After in instrumented code: the channel receives
+// the time once the scheduler has moved the fake clock to it.
+func After(d time.Duration) <-chan time.Time {
+	e := ex
+	if e == nil || e.killing {
+		return time.After(d)
+	}
+	ch := make(chan time.Time, 1)
+	at := time.Now().Add(d)
+	if d <= 0 {
+		ch <- at
+		return ch
+	}
+	e.timers = append(e.timers, timerEntry{at, ch})
+	AddInstant(at)
+	return ch
+}
+
+// SleepFor stands in for time.Sleep in instrumented code.
+func SleepFor(site string, d time.Duration) {
+	if ex == nil || ex.killing {
+		return
+	}
+	Recv(site, After(d))
+}
+
+func (e *Exec) fireTimers() {
+	now := time.Now()
+	k := 0
+	for _, t := range e.timers {
+		if !t.at.After(now) {
+			select {
+			case t.ch <- t.at:
+			default:
+			}
+			continue
+		}
+		e.timers[k] = t
+		k++
+	}
+	e.timers = e.timers[:k]
 }
 
 // AddInstant registers an instant at which something may become enabled.
@@ -939,6 +989,7 @@ func Sleep(d time.Duration) {
 	time.Sleep(d)
 	synctest.Wait()
 	e.advancing = false
+	e.fireTimers()
 }
 
 // Obs appends to the execution's observation log.
